@@ -382,6 +382,93 @@ fn run_free(rng: &mut rand::rngs::StdRng, conc_clear: bool) -> Option<Value> {
            "empty_before": empty_before, "empty_after": empty_after}))
 }
 
+/// A clear_with callback that panics (the panic is caught by the caller): afterwards the bucket is still usable, and every
+/// value that was in it is destroyed at most once - also later, when the epoch collector runs the deferred block
+/// destructions - and nothing that was never pushed is ever destroyed.
+fn run_cbpanic(rng: &mut rand::rngs::StdRng) -> Value {
+    use std::sync::atomic::{AtomicU32, Ordering::SeqCst};
+    const N: usize = 4096;
+    static DROPS: [AtomicU32; N] = {
+        #[allow(clippy::declare_interior_mutable_const)]
+        const Z: AtomicU32 = AtomicU32::new(0);
+        [Z; N]
+    };
+    static GARBAGE: AtomicU32 = AtomicU32::new(0);
+    struct Tracked {
+        id: usize,
+        magic: u64,
+        _b: Box<u64>,
+    }
+    impl Drop for Tracked {
+        fn drop(&mut self) {
+            if self.magic == 0x7ac4_ed00_0000_0000 ^ self.id as u64 && self.id < N {
+                DROPS[self.id].fetch_add(1, SeqCst);
+            } else {
+                GARBAGE.fetch_add(1, SeqCst);
+            }
+        }
+    }
+    for d in DROPS.iter() {
+        d.store(0, SeqCst);
+    }
+    GARBAGE.store(0, SeqCst);
+    let n = rng.random_range(65..=260usize); // more than one block, up to a few
+    let panic_at = rng.random_range(0..(n + 63) / 64); // which callback invocation panics
+    let bucket: AtomicBucket<Tracked> = AtomicBucket::new();
+    for id in 0..n {
+        bucket.push(Tracked { id, magic: 0x7ac4_ed00_0000_0000 ^ id as u64, _b: Box::new(id as u64) });
+    }
+    let prev = std::panic::take_hook();
+    std::panic::set_hook(Box::new(|_| {}));
+    let mut calls = 0usize;
+    let mut handed = 0usize;
+    let caught = std::panic::catch_unwind(std::panic::AssertUnwindSafe(|| {
+        bucket.clear_with(|xs| {
+            if calls == panic_at {
+                calls += 1;
+                panic!("callback gives up");
+            }
+            calls += 1;
+            handed += xs.len();
+        });
+    }))
+    .is_err();
+    std::panic::set_hook(prev);
+    // the bucket is still usable and empty
+    let empty_after = bucket.is_empty() && bucket.data_with_len() == 0;
+    bucket.push(Tracked { id: N - 1, magic: 0x7ac4_ed00_0000_0000 ^ (N - 1) as u64, _b: Box::new(0) });
+    let mut relen = 0usize;
+    bucket.clear_with(|xs| relen += xs.len());
+    // drive epoch reclamation with unrelated traffic
+    for round in 0..200 {
+        let other: AtomicBucket<u64> = AtomicBucket::new();
+        for i in 0..130u64 {
+            other.push(i + round);
+        }
+        other.clear();
+    }
+    drop(bucket);
+    for _ in 0..50 {
+        let other: AtomicBucket<u64> = AtomicBucket::new();
+        other.push(1);
+        other.clear();
+    }
+    let twice = DROPS.iter().filter(|d| d.load(SeqCst) > 1).count();
+    let destroyed = DROPS.iter().take(n).filter(|d| d.load(SeqCst) == 1).count();
+    json!({"p": 0, "ev": "cbpanic", "a": [n, panic_at, caught as i64, handed, empty_after as i64, relen, twice, GARBAGE.load(SeqCst), destroyed]})
+}
+
+trait DataLen {
+    fn data_with_len(&self) -> usize;
+}
+impl<T> DataLen for AtomicBucket<T> {
+    fn data_with_len(&self) -> usize {
+        let mut n = 0;
+        self.data_with(|xs| n += xs.len());
+        n
+    }
+}
+
 fn main() {
     let args = vh::Args::parse();
     let mode = args.pos.get(0).map(|s| s.as_str()).unwrap_or("record");
@@ -433,6 +520,14 @@ fn main() {
             }
             summary["runs"] = json!(n);
             summary["diverged"] = json!(div);
+        }
+        "cbpanic" => {
+            let runs: usize = args.num("runs", 20);
+            for _ in 0..runs {
+                w.put(&json!({"p": 0, "ev": "reset", "a": [0]}));
+                w.put(&run_cbpanic(&mut rng));
+            }
+            summary["runs"] = json!(runs);
         }
         "free" => {
             let runs: usize = args.num("runs", 20);
